@@ -19,7 +19,7 @@ use vh_client::*;
 use vh_proto::gen::{gen_response_kind, GenCfg, KINDS};
 use vh_proto::parsecommon::SEEDS;
 use vh_proto::print::{print_response, Style};
-use vh_proto::prng::{hex, Rng};
+use vh_proto::prng::{hex, unhex, Rng};
 use vh_proto::run::*;
 use vh_proto::ser;
 
@@ -1053,19 +1053,59 @@ fn main() {
     let untagged: Vec<Vec<u8>> = resp.iter().filter(|b| !is_tagged(b)).cloned().collect();
 
     if let Some(f) = args.get("replay") {
-        // replay = re-evaluate the recorded op lines on the model and print them (the trace is the
-        // effective one, so the implementation side is replayed by re-running the seed)
+        // replay: a `frames` line carries the effective read trace, from which stream and schedule
+        // are rebuilt and the case is re-run on implementation, oracle and model; `session` lines
+        // (whose write-side schedule is not in the trace) are re-evaluated on the model and printed
         let mut ctx = Ctx::new(&model);
         let text = std::fs::read_to_string(f).expect("replay file");
+        let mut model_only = 0;
         for line in text.lines() {
             if line.starts_with('#') || line.trim().is_empty() {
                 continue;
             }
-            let r = ctx.model.eval_batch(&[line.to_string()]);
-            println!("op    {}", clip(line, 400));
-            println!("model {}", clip(&r[0], 800));
+            let fields: Vec<&str> = line.split_whitespace().collect();
+            if line.trim_end().ends_with("...") {
+                println!("(a recorded case longer than the replay file keeps was cut; skipped)");
+                continue;
+            }
+            if fields.len() >= 3 && fields[0] == "frames" {
+                let mut stream: Vec<u8> = vec![];
+                let mut script: Vec<RDir> = vec![];
+                let mut eof = false;
+                if fields[1] != "-" {
+                    for ev in fields[1].split(',') {
+                        if let Some(h) = ev.strip_prefix('d') {
+                            let b = unhex(h);
+                            script.push(RDir::Go(b.len()));
+                            stream.extend_from_slice(&b);
+                        } else if ev == "p" {
+                            script.push(RDir::Pending);
+                        } else if ev == "e" {
+                            eof = true;
+                            script.push(RDir::Go(usize::MAX));
+                        }
+                    }
+                }
+                println!("stream {}", show_bytes(&stream));
+                run_frames_case(&mut ctx, &stream, script, eof, "replay");
+            } else {
+                let r = ctx.model.eval_batch(&[line.to_string()]);
+                println!("op    {}", clip(line, 400));
+                println!("model {}", clip(&r[0], 800));
+                model_only += 1;
+            }
         }
-        std::process::exit(1);
+        ctx.flush();
+        let mut bad = model_only;
+        for d in &ctx.log.disagreements {
+            println!("DISAGREE impl={} model={}", clip(&d.imp, 400), clip(&d.model, 400));
+            bad += 1;
+        }
+        for f in &ctx.log.oracle_failures {
+            println!("ORACLE-FAIL {}: {}", f.class, clip(&f.what, 400));
+            bad += 1;
+        }
+        std::process::exit(if bad > 0 { 1 } else { 0 });
     }
 
     let total = Mutex::new(Log::default());
